@@ -108,6 +108,15 @@ CHECKS['C17'] = dict(
     design_ref='DESIGN.md 4/C17',
     note='Trusted: MIR = code; std builtins. Outside: rendered diagnostic text, multi-file VIA chains, errors reported only by the static checker, columns inside multi-line statements.',
     technique='symbolic execution of rustc MIR on fault-injected programs; span/call-stack/shift obligations decided per path; native replay (bounded: fault kinds x slots x positions)')
+CHECKS['C03'] = dict(
+    category='model_checking',
+    text='The real json / yaml / toml / yamlmulti value mapping (convert_value, convert_tuple, convert_list, write, yamlmulti::convert) is executed from MIR on Val trees whose node kinds are symbolic decisions '
+         '(depth 1 quick / 2 thorough, 0..2/3 children) and whose scalars are symbolic (i64, f64 as IEEE FP terms, bool, string byte). z3 decides that the serde value handed to the serialiser is isomorphic to the '
+         'input — same nesting, order, key set, identical strings/booleans/nulls and exactly equal numbers (an integer routed through f64 must survive the round trip) — that Err is returned exactly for NULL under '
+         'TOML and non-finite floats under JSON, and that yamlmulti separates consecutive documents with a marker.',
+    design_ref='DESIGN.md 4/C03',
+    note='Trusted: MIR = code; serde/toml value constructors and maps are abstract builtins; the serialisers\' text emission and any decoder are third-party code and outside the claim (replay still decodes the real output with python json / tomllib). Outside: Env and Constraint values, key quoting, string forms that look like other scalars.',
+    technique='symbolic execution of rustc MIR over symbolically chosen tree shapes with symbolic scalars; z3 (BV + FP) decides isomorphism incl. exact numeric equality; replay through the real converter and an independent decoder')
 NOT_APPLICABLE = {
 }
 ALL = ['C%02d' % i for i in range(1, 21)]
